@@ -42,7 +42,9 @@ TRUSTED = ["see C18 (WeakKeyDictionary model, DocumentNames enumeration, plain-f
            "does then); the weak-reference destroy callbacks themselves are not modelled",
            "end-to-end tasks: " + RUN_BOUND] + TRUSTED_T2[:2] + TRUSTED_T2[3:4] + TRUSTED_T2[6:] + EM_ASSUMPTIONS
 NOT_DECIDED = ("callbacks scheduled on other threads; weak-reference destroy callbacks firing in the middle of a delivery; plans that catch the "
-               "callback's exception and carry on (the statement speaks of the exception ending the plan); plan shapes beyond the enumerated ones")
+               "callback's exception and carry on (the statement speaks of the exception ending the plan); plan shapes beyond the enumerated ones; "
+               "inside the listed case of the known finding (exceptions not ignored, the first callback error happens on a stop document) only the "
+               "delivery clause, the closing of the *other* runs and the engine's return to idle are proved")
 KF = "C19-stop-document-callback-error"
 CR = f"{MU}:CallbackRegistry"
 
@@ -59,25 +61,26 @@ def _mk(n):
         d = new_dispatcher(I)
         ignore = w.choose([False, True], "ignore_exceptions")
         I.setattr(d, "ignore_exceptions", ignore)
-        raising = w.choose([None] + list(range(n)), "raising callback") if n else None
-        boom = Obj(BUILTIN_CLASSES["ValueError"], {"args": ("boom",), "__cause__": None}, label="boom")
+        # any subset of the callbacks raises, each its own exception ('some raising')
+        raising = [i for i in range(n) if w.choose([False, True], f"callback {i} raises")]
+        booms = [Obj(BUILTIN_CLASSES["ValueError"], {"args": (f"boom{i}",), "__cause__": None}, label=f"boom{i}") for i in range(n)]
         for i in range(n):
             def cb(I_, a, k, _i=i):
                 log.append((_i, a))
-                if _i == raising:
-                    raise PyRaise(boom)
+                if _i in raising:
+                    raise PyRaise(booms[_i])
             cb._canon_label = f"cb{i}"
             call_method(I, d, "subscribe", native(cb), "event")
         doc = Opaque("doc", {"token": "doc"})
         r = catch(I, I.getattr(d, "process"), names["event"], doc)
         called = [i for i, a in log]
         args_ok = all(a[0] == "event" and a[1] is doc for i, a in log)
-        if raising is None or ignore:
+        if not raising or ignore:
             ok = r[0] == "ok" and called == list(range(n)) and args_ok
         else:
-            ok = r[0] == "raise" and r[1] is boom and called == list(range(raising + 1)) and args_ok
+            ok = r[0] == "raise" and r[1] is booms[raising[0]] and called == list(range(raising[0] + 1)) and args_ok
         w.check(f"{CR}.process#ensures[every callback once, in subscription order; error policy] (n={n})", ok,
-                {"replay": "dispatcher.policy"})
+                {"replay": "dispatcher.policy", "n": n, "raising": raising, "ignore": ignore})
 
 
 for _n in (0, 1, 2, 3):
@@ -188,7 +191,8 @@ def emit(I):
         if fails:
             raise PyRaise(boom)
     disp = Opaque("dispatcher", {"methods": {"process": process}})
-    re_ = make_re(I, env, dispatcher=disp)
+    re_ = make_re(I, env, dispatcher=disp, _loop_for_kwargs={})
+    w.stubs["asyncio.sleep"] = lambda I_, a, k: Ready(None)     # yielding to the loop inside emit would be no error (scheduling: end-to-end tasks)
     del re_.attrs["emit"], re_.attrs["emit_sync"]        # the real methods, not the harness recorders
     doc = Opaque("doc", {"token": "doc"})
     which = w.choose(["emit", "emit_sync"], "entry point")
@@ -197,7 +201,7 @@ def emit(I):
     else:
         r = catch(I, I.getattr(re_, "emit_sync"), "event", doc)
     w.check(f"{RE}.emit#ensures[each document handed to the dispatcher exactly once, errors propagate to the caller]",
-            calls == [("event", doc)] and (r[0] == "raise" and r[1] is boom if fails else r[0] == "ok"), {"replay": "dispatcher.policy"})
+            calls == [("event", doc)] and (r[0] == "raise" and r[1] is boom if fails else r[0] == "ok"), {"replay": "dispatcher.emit"})
 
 
 @task("ignore_callback_exceptions", PROP, functions=[f"{RE}.ignore_callback_exceptions", f"{D}.ignore_exceptions"],
@@ -318,7 +322,7 @@ def _mk_run(shape):
             I.setattr(re_, "record_interruptions", True)
         ignore = w.choose([False, True], "ignore_callback_exceptions")
         I.setattr(re_, "ignore_callback_exceptions", ignore)
-        role = w.choose(["raises", "raises from then on", "one-shot", "subscribes another", "replaces itself by another", "unsubscribes the last one", "records"], "what the middle callback does")
+        role = w.choose(["raises", "raises from then on", "raises and so does the last one", "one-shot", "subscribes another", "replaces itself by another", "unsubscribes the last one", "records"], "what the middle callback does")
         at = w.choose(list(range(len(full))), "at document #") if role != "records" else None
         last_kind = w.choose(["all", "stop"], "kind the last callback subscribed to")
         sc = {"shape": shape, "ignore": ignore, "role": role, "at": at, "last_kind": last_kind}
@@ -342,7 +346,10 @@ def _mk_run(shape):
 
         def recorder(label):
             def cb(I_, a, k):
-                calls.append((label, a[0], idx(a[1])))
+                t_ = idx(a[1])
+                calls.append((label, a[0], t_))
+                if label == "c" and role == "raises and so does the last one" and t_ == at:
+                    raise PyRaise(Obj(BUILTIN_CLASSES["ValueError"], {"args": ("boom of the last callback",), "__cause__": None}, label="boom_c"))
             cb._canon_label = label
             return native(cb)
 
@@ -360,7 +367,7 @@ def _mk_run(shape):
                         call_method(I_, re_, "unsubscribe", tokens["c"])
                 except PyRaise as pr:
                     st["error"] = repr(pr.exc)
-            if (role == "raises" and t_ == at and not raises) or (role == "raises from then on" and t_ >= at):
+            if (role in ("raises", "raises and so does the last one") and t_ == at and not raises) or (role == "raises from then on" and t_ >= at):
                 raises[t_] = "x"
                 raise PyRaise(boom)
         middle._canon_label = "x"
@@ -386,9 +393,9 @@ def _mk_run(shape):
         first = None if ignore or not raises else min(raises)
         if ignore and raises:
             w.cover(f"{shape}: exceptions ignored, a callback raises")
-        if first is not None and full[first][0] == "start":
+        if first is not None and first < len(docs) and docs[first]["name"] == "start":
             w.cover(f"{shape}: not ignored, raises on a start document")
-        at_stop = first is not None and first < len(full) and full[first][0] == "stop"
+        at_stop = first is not None and first < len(docs) and docs[first]["name"] == "stop"      # the listed case of the known finding
         if at_stop:
             w.cover(f"{shape}: not ignored, raises on a stop document")
         for rl, cv in (("one-shot", "one-shot callback"), ("subscribes another", "callback subscribes another"), ("unsubscribes the last one", "callback unsubscribes a later one")):
